@@ -128,7 +128,23 @@ func c04One(o *out, text string, params map[string]interface{}, tag string) {
 		}
 	}
 	if el := time.Since(t0); el > 3*budget {
-		o.fail("", fmt.Sprintf("parsing %d bytes took %v (budget %v)", len(text), el, budget), rp)
+		// a slow run may be the machine's doing (a loaded host, a collection in the middle): the parse is timed again,
+		// alone, three times, and only a text that is slow every time counts
+		best := el
+		for i := 0; i < 3; i++ {
+			t1 := time.Now()
+			safely(func() {
+				p := influxql.NewParser(strings.NewReader(text))
+				p.SetParams(params)
+				p.ParseQuery()
+			})
+			if d := time.Since(t1); d < best {
+				best = d
+			}
+		}
+		if best > 3*budget {
+			o.fail("", fmt.Sprintf("parsing %d bytes took %v, and %v at best when repeated (budget %v)", len(text), el, best, budget), rp)
+		}
 	}
 }
 
